@@ -29,7 +29,8 @@ RULE = ("kinds: roundtrip (both shipped sample types, declared size 1..14, 0..13
         "save_h5 + load_h5, compared bit-for-bit; keys (h5py iteration order of the group names, n up to 3 digits); "
         "concat (0..4 chains, chain files loaded in random argument order); evaluate (batchie.cli.evaluate_model.main "
         "in-process on 1..4 chain files x 1..13 samples: column k matched bitwise to the prediction of an in-memory sample); "
-        "ops (add_theta/get_theta sequences incl. negative and too large indices, declared <= 0).  "
+        "ops (add_theta/get_theta sequences incl. negative and too large indices, declared <= 0); equals (Theta.equals on a sample and a rebuilt copy "
+        "changed in at most one array / scalar / table entry / the class: true exactly for the unchanged copy).  "
         "Non-trivial: at least one stored sample / one operation; distinct by case description.")
 THEOREMS = {
     "C10_model_is_source_init": "the Gallina translation of the whole method ThetaHolder.__init__, regenerated from /repo's current source on this run (Generated/SrcThetas.v), turns ANY fresh instance into (same class, declared size n, no samples) = the model's empty_holder n",
@@ -94,6 +95,40 @@ THEOREMS.update({
     'C10_model_is_source_cli_evaluate_model': 'the translation of the whole function evaluate_model.main regenerated on this run equals, for every record L of library functions and all parsed arguments, Cli.cli_evaluate_model: chain ids = for file i of --thetas in ARGUMENT order, its declared size n_thetas many copies of i (Cli.chain_ids_of); predictions = predict_viability_all(screen, concat of the holders in that order).T; ModelEvaluation(...) saved',
 })
 EXPLANATION += ("  CLI wrapper: evaluate_model.main is re-translated as a WHOLE function on every run (Generated/SrcCli.v) and proved equal to Model/Cli.v.  The link trusts the translator harness/py2gal.py (for these links extended by cfg typed_effects, kwcalls keys `module.function`, state_calls assigned to a tuple), the representation of Model/Cli.v (parsed arguments = a record of the plain argparse results, get_args() not translated = the primitive `get_args()` yielding that record; a main() denotes the list of (path, content) files it writes; `L` = ANY record of library functions over abstract types) and EXACTLY these primitives of harness/src_functions.py, each one field read / one library or constructor call standing for the function of that name (whose own link, where it exists, is the one of its property): CLI_EVALUATE_MODEL: the fields of `args` read as the record's projections (a store to one is refused); ignored: log_config.configure_logging(args), logger.info/warning; Screen.load_h5(p), ThetaHolder(n_thetas=1), h.load_h5(p), h.concat(l), t.n_thetas, `[i] * n` = n copies, typed effect chain_ids.extend(l), np.array(l, dtype=int) = the same values, m.T, s.observations, s.sample_names, keyword calls predict_viability_all(screen=, thetas=) and ModelEvaluation(observations=, predictions=, chain_ids=, sample_names=), typed effect r.save_h5(p); the enumerate loop is translated. ")
+
+# ---- source-translation links of the sample classes' dict methods and Theta.equals (Model/ThetaDicts.v, Generated/SrcThetaDicts.v) ----
+THEOREMS.update({
+    "C10_model_is_source_sc_private_parameters_dict": "the translation of SparseDrugComboMCMCSample.private_parameters_dict (`return self.__dict__`; the dataclass field list is read from the class body on this run) equals the model's sc_private: W, W0, V2, V1, V0 as arrays and alpha, precision as scalars, each under its own name, in declaration order - for every sample, all array / float types",
+    "C10_model_is_source_theta_shared_parameters_dict": "the translation of Theta.shared_parameters_dict (inherited by SparseDrugComboMCMCSample: checked that the class defines none) returns the empty dict for an object of any class",
+    "C10_model_is_source_sc_from_dicts": "the translation of SparseDrugComboMCMCSample.from_dicts (`cls(**private_params)`: ** unpacking against the dataclass fields) equals the model's sc_from_dicts for ALL pairs of dicts: TypeError unless the keys are exactly the seven field names (any order), shared_params not read",
+    "C10_model_is_source_in_private_parameters_dict": "the translation of SparseDrugComboInteractionMCMCSample.private_parameters_dict equals the model's in_private (W, V2, precision under their own names)",
+    "C10_model_is_source_in_shared_parameters_dict": "the translation of SparseDrugComboInteractionMCMCSample.shared_parameters_dict equals the model's in_shared: the single-effect table as three parallel arrays (sample ids, treatment ids, values) under the three single_effect_lookup_* keys, rows in the dict's iteration order",
+    "C10_model_is_source_in_from_dicts": "the translation of SparseDrugComboInteractionMCMCSample.from_dicts equals the model's in_from_dicts for ALL pairs of dicts: KeyError for a missing column, the table rebuilt by dict(zip(zip(keys1, keys2), vals)), cls(single_effect_lookup=..., **private_params)",
+    "C10_source_sc_roundtrip": "through the three TRANSLATED methods, from_dicts(private_parameters_dict(t), shared_parameters_dict(t)) = t for every SparseDrugComboMCMCSample t",
+    "C10_source_in_roundtrip": "the same for every SparseDrugComboInteractionMCMCSample whose table has distinct keys (true of every Python dict)",
+    "C10_source_in_roundtrip_empty_table": "the empty single-effect table is exported as three empty columns and comes back as the empty table",
+    "C10_from_dicts_any_entry_order": "from_dicts returns the sample from ANY dicts that are the same finite maps as its two dicts, whatever the order of their entries (an HDF5 group is read back attributes first, then datasets by name)",
+    "C10_sc_from_dicts_only_of_private": "conversely, a dict that from_dicts accepts is (as a finite map) the private dict of the sample it returns",
+    "C10_source_save_primitives_are_translations": "consistency with C10_model_is_source_save_h5: with P = S = parameter dict and a sample represented as (private dict, shared dict), the meanings fst / snd that the save_h5 configuration gave to t.private_parameters_dict() / t.shared_parameters_dict() are what the translated methods of t's class compute, for every shipped sample",
+    "C10_source_load_primitive_is_translation": "consistency with C10_model_is_source_load_h5: the pair (p, s) that the load_h5 configuration gave to C.from_dicts(private_params=p, shared_params=s) stands for the sample - the translated from_dicts of the sample's class returns t from t's own pair (tables with distinct keys)",
+    "C10_source_samples_persist": "end to end through translated code only: a non-empty collection of shipped samples within its declared size, sharing their shared parameters, goes through the translated save_h5, the file, the translated load_h5 and the translated from_dicts and comes back as the same declared size and the same samples in the same order",
+    "C10_model_is_source_theta_equals": "the translation of the whole method Theta.equals (class test, the two pairs of dicts, both loops with their early returns, `k not in d2`, the Number / ArrayType / other branches) equals the model's theta_equals for ANY sample class given by its class test and dict methods and any comparison functions",
+    "C10_source_equals_is_sample_eqb": "on any two shipped samples, with dispatch to the translated dict methods, the translated equals returns (never raises) the model equality: field by field, the tables row by row in iteration order, false across classes",
+    "C10_source_equals_true_iff_dicts_agree": "equals is true exactly when the samples are of one class and their private and shared dicts agree entry by entry (same keys in the same order, arrays under np.array_equal, scalars and the value column under ==, id columns exactly)",
+    "C10_source_equals_true_iff_same_representation": "UNDER the stated hypothesis that == / np.array_equal decide equality of values (excludes NaN; -0.0 = 0.0): equals is true exactly when the two samples have the same dict representation (hence are the same sample)",
+})
+ASSUMPTIONS += [
+    "source-translation links of the sample classes (harness/src_functions.py C10D_*): trusted are the translator (for these links extended by: str constants as code point lists, dicts with string keys - display, d[k] with KeyError, `k in d`, .items() -, F(..., **d) against a declared parameter list with TypeError, constant tuple indices, `return` inside for loops, checked downcasts) and: the @dataclass reading (CHECKED against the class body on every run: decorator exactly @dataclass, the single base Theta, field names and order, no defaults, no __init__ / __post_init__ / __slots__ / __setattr__ ...; TRUSTED: then x.__dict__ is {field: value} in declaration order - no attribute added or deleted after construction - and cls(k=v, ...) in a classmethod builds the instance with exactly these fields; Theta itself has no fields); field -> dict value coercions PArr / PNum and the downcasts as_arr / as_num (Err 95 = a value of another kind: outside the model, Python's dataclass does not check); list(d.items()) = the items in iteration order; np.array(list of ints / floats) = a 1-d array of these values (the float64 dtype numpy gives EMPTY id columns is not modelled); zip(a, b) on two id columns / on the key pairs and the value column = pairs up to the shorter (the one-shot zip object is consumed once); dict(pairs) = insertion from the left, a repeated key keeps its place and gets the last value",
+    "source-translation link of Theta.equals (C10D_EQUALS): print(...) is ignored; isinstance(other, type(self)) = the class test parameter (instantiated by: same shipped class; there are no subclasses); self/other.private_parameters_dict() / .shared_parameters_dict() = the dict-method parameters (instantiated by the translated methods of the sample's class - method dispatch); isinstance(v, Number) = the value is a scalar, isinstance(v, ArrayType) = it is an array (any of the three array kinds); v != w on two scalars = not (feqb v w); np.array_equal(v, w) on two arrays of one kind = aeqb / elementwise comparison with equal length; a scalar compared with an array, or arrays of different kinds, is Err 95 (outside the model: numpy broadcasting) - C10_source_equals_is_sample_eqb proves no pair of shipped samples reaches it",
+]
+EXPLANATION += ("  Sample classes: private_parameters_dict / shared_parameters_dict / from_dicts of SparseDrugComboMCMCSample and SparseDrugComboInteractionMCMCSample, "
+                "Theta.shared_parameters_dict and Theta.equals are re-translated as whole functions on every run (Generated/SrcThetaDicts.v) and proved equal to "
+                "Model/ThetaDicts.v for all inputs and all array / float types; from_dicts is proved to invert the two dict methods (also on re-ordered dicts, as an HDF5 "
+                "group returns them), the three primitives that the save_h5 / load_h5 links used for these calls are proved to BE these translations on the representation "
+                "sample -> (private dict, shared dict), and C10_source_samples_persist composes everything: translated save_h5, file, translated load_h5, translated "
+                "from_dicts give back the samples.  Trusted there: the translator and exactly the primitives listed in ASSUMPTIONS (dataclass reading, PArr / PNum / "
+                "as_arr / as_num, list(d.items()), np.array, zip, dict, and for equals: print ignored, isinstance tests, !=, np.array_equal, dispatch).  The roundtrip "
+                "cases of the correspondence run the real methods (including from_dicts on dicts read back from HDF5 in another entry order) bit for bit. ")
 
 _NAN1 = struct.unpack("<d", struct.pack("<Q", 0x7FF8000000000123))[0]
 _NAN2 = struct.unpack("<d", struct.pack("<Q", 0xFFF0000000000001))[0]
@@ -273,6 +308,13 @@ def gen(rng, tier):
         yield dict(kind="checkpoint", type=rng.choice(["inter", "inter", "inter", "combo"]), dims=[rng.randint(1, 3), rng.randint(1, 3), rng.randint(1, 2)],
                    mode=rng.choice(["mixed", "mixed", "f32"]) if False else "mixed", tsize=rng.randint(1, 6),
                    steps=["first"] + [rng.choice(["revalue", "revalue", "grow", "both", "same"]) for _ in range(n - 1)], vseed=rng.getrandbits(32))
+    # Theta.equals on pairs of samples that differ in at most one place (implementation-only predicate)
+    for _ in range(60 if not big else 400):
+        typ = rng.choice(["combo", "inter", "inter"])
+        muts = ["none", "none", "W", "V2", "precision", "other_class"] + \
+            (["W0", "V1", "V0", "alpha"] if typ == "combo" else ["table_value", "table_key", "table_extra", "table_order", "table_value"])
+        yield dict(kind="equals", type=typ, dims=[rng.randint(1, 3), rng.randint(1, 3), rng.randint(1, 2)], tsize=rng.randint(2, 6),
+                   mutate=rng.choice(muts), vseed=rng.getrandbits(32))
     # ops
     for _ in range(90 if not big else 900):
         declared = rng.choice([-2, 0, 1, 2, 3, 5, 11, 13])
@@ -681,8 +723,54 @@ def _run_checkpoint(desc):
     return dict(wire=None, impl=None, pred=pred, features=["checkpoint", "type:" + typ] + sorted({"step:" + x for x in steps[1:]}))
 
 
+def _run_equals(desc):
+    """Theta.equals(a, b) must say whether the two samples hold the same parameter values (finite values, no NaN): b is a
+    rebuilt copy of a, changed in at most one place (implementation-only predicate; the linked model is Model/ThetaDicts.v
+    sample_eqb, where two tables with the same entries in another iteration order are NOT equal - as in the code)"""
+    typ, mut = desc["type"], desc["mutate"]
+    dims = tuple(desc["dims"])
+
+    def build(other_class=False):
+        r = random.Random(desc["vseed"])
+        t = typ if not other_class else ("inter" if typ == "combo" else "combo")
+        table = make_table(r, desc["tsize"], "moderate") if typ == "inter" or other_class else None
+        return make_sample(r, t, dims, "moderate", "f8", table if t == "inter" else None)
+    a = build()
+    b = build(other_class=(mut == "other_class"))
+    if mut in ("W", "V2", "W0", "V1", "V0"):
+        arr = np.array(getattr(b, mut), copy=True)
+        arr.flat[arr.size - 1] += 1.0
+        setattr(b, mut, arr)
+    elif mut in ("precision", "alpha"):
+        setattr(b, mut, getattr(b, mut) + 1.0)
+    elif mut.startswith("table_"):
+        tb = dict(b.single_effect_lookup)
+        ks = list(tb)
+        if mut == "table_value":
+            tb[ks[-1]] = tb[ks[-1]] + 1.0
+        elif mut == "table_key":
+            v = tb.pop(ks[-1])
+            tb[(ks[-1][0] + 50, ks[-1][1])] = v
+        elif mut == "table_extra":
+            tb[(77, 7)] = 0.5
+        elif mut == "table_order":
+            tb = {k: tb[k] for k in reversed(ks)}
+        b.single_effect_lookup = tb
+    expected = mut == "none"
+    with contextlib.redirect_stdout(io.StringIO()):
+        got, back = impl_call(lambda: bool(a.equals(b))), impl_call(lambda: bool(b.equals(a)))
+    pred = None
+    if got is not expected:
+        pred = "equals returned %r for two samples that %s" % (got, "hold the same values" if expected else "differ in " + mut)
+    elif back is not expected:
+        pred = "equals (arguments exchanged) returned %r for two samples that %s" % (back, "hold the same values" if expected else "differ in " + mut)
+    return dict(wire=None, impl=None, pred=pred, features=["equals", "type:" + typ, "differ:" + mut])
+
+
 def run(desc):
     k = desc["kind"]
+    if k == "equals":
+        return _run_equals(desc)
     if k == "checkpoint":
         return _run_checkpoint(desc)
     if k == "keys":
